@@ -256,7 +256,9 @@ func (k Key) String() string {
 		}
 		return fmt.Sprintf("Ctrl+%c", val)
 	case k.Keycode <= unicode.MaxRune:
-		if k.Modifiers&ModCapsLock != 0 {
+		if k.Modifiers&ModCapsLock != 0 && k.Text == string(unicode.ToUpper(k.Keycode)) {
+			// Caps Lock produced the upper-case text: describe the key by
+			// it (Matches accepts the Text); otherwise by its keycode
 			buf.WriteRune(unicode.ToUpper(k.Keycode))
 		} else {
 			buf.WriteRune(k.Keycode)
